@@ -707,3 +707,11 @@ Proof.
   intros H. unfold cleanup. cbn [flat_map]. rewrite app_nil_r.
   rewrite (faulty_publication_equals_clean _ _ _ _ _ H). reflexivity.
 Qed.
+
+(* the pubsub loop goes on after errors: whatever was received before (errors included), the next decoded message
+   is handled *)
+Lemma prun_app st a b : prun st (a ++ b) = prun (prun st a) b.
+Proof. revert st; induction a as [|[t e] a IH]; intros st; cbn; auto. Qed.
+
+Lemma pubsub_goes_on st h t m : prun st (h ++ [(t, PMsg m)]) = detector_step t (prun st h) m.
+Proof. rewrite prun_app. reflexivity. Qed.
